@@ -827,9 +827,13 @@ Qed.
    fill_symbol: whenever the fuel covers the INLINE ranges of the function found and the model does not run out of
    its own fuel.  The compiled `instr - mbase` (a u64 subtraction the model writes as plain `-`) cannot trap; neither can
    the `- 1` of the two memory_range functions, nor the `start <= end` assertion of Range::new (for non-negative fields).
-   First conjunct: the Line::Function arm of SymbolParser::finish_item (parser side), compiled with its closures: pushing
+   First conjunct: insert_win_stack_info (the overlap repair of STACK WIN records, with its `last_mut()` borrow, the `as u32`
+   truncation and the `unwrap`) = the model's win_insert on the reversed vector: the guarded u64 subtraction cannot trap.
+   Second conjunct: the Line::Function arm of SymbolParser::finish_item (parser side), compiled with its closures: pushing
    onto self.functions what [finish_func] returns; after the `size > 0` filter the closure's `l.size as u64 - 1` cannot trap. *)
 Theorem c11_compiled_source_tie :
+  (forall p v w, u64 (w_addr w) -> 0 <= w_size w -> Forall (fun e : range * win_rec => 0 <= w_addr (snd e)) v ->
+     C11Src.src_insert_win_stack_info p v w = do acc <- win_insert (rev v) w; Ret (rev acc)) /\
   (forall p acc cur lines inls, u64 (fn_addr cur) -> u32 (fn_size cur) -> Forall wf_line lines ->
      C11Src.src_finish_function p acc cur lines inls =
      do r <- finish_func (mk_fraw (fn_addr cur) (fn_size cur) (fn_psize cur) (fn_name cur) lines inls);
@@ -872,13 +876,6 @@ Print Assumptions c11_compiled_fill_symbol.
 Theorem c11_compiled_build_symtab : forall p rf, wf_file rf -> Driver.table_of_src p rf = build_symtab rf.
 Proof. exact SrcTie.src_build_symtab. Qed.
 Print Assumptions c11_compiled_build_symtab.
-
-Example c11_nonvacuous_compiled_table :
-  wf_file nv_file /\ (exists st, Driver.table_of_src Debug nv_file = Ret st /\ length (st_funcs st) = 1%nat) /\
-  Driver.table_of_src Release nv_file2 = build_symtab nv_file2.
-Proof.
-  split; [exact c11_nonvacuous_wf|]. split; [eexists; split; vm_compute; reflexivity|vm_compute; reflexivity].
-Qed.
 
 Theorem c11_compiled_driver_fuel : forall st, SrcTie.fuel_covers st (Prims.src_fuel st).
 Proof. exact SrcTie.src_fuel_covers. Qed.
